@@ -35,7 +35,7 @@ type Pool struct {
 
 // every pool that was ever used, so that a run can start from empty pools
 // (a run must be a pure function of its script, not of the runs before it)
-var allPools [64]*Pool
+var allPools [4096]*Pool
 var nPools int
 
 //go:norace
@@ -256,6 +256,7 @@ func (m *Mutex) Unlock() {
 	if !m.unlock() {
 		panic("sync: unlock of unlocked mutex")
 	}
+	notify()
 	YS(SitePrimBase + 8)
 }
 
@@ -317,6 +318,7 @@ func (m *RWMutex) Unlock() {
 	if !m.relW() {
 		panic("sync: Unlock of unlocked RWMutex")
 	}
+	notify()
 	YS(SitePrimBase + 11)
 }
 
@@ -328,11 +330,44 @@ func (m *RWMutex) RLock() {
 	raceAcquire(unsafe.Pointer(&m.wtok))
 }
 
+func (m *RWMutex) TryLock() bool {
+	YS(SitePrimBase + 9)
+	if m.tryW() {
+		raceAcquire(unsafe.Pointer(&m.wtok))
+		raceAcquire(unsafe.Pointer(&m.rtok))
+		return true
+	}
+	return false
+}
+
+func (m *RWMutex) TryRLock() bool {
+	YS(SitePrimBase + 12)
+	if m.tryR() {
+		raceAcquire(unsafe.Pointer(&m.wtok))
+		return true
+	}
+	return false
+}
+
+type rlocker RWMutex
+
+func (r *rlocker) Lock()   { (*RWMutex)(r).RLock() }
+func (r *rlocker) Unlock() { (*RWMutex)(r).RUnlock() }
+
+// RLocker mirrors sync.RWMutex.RLocker.
+func (m *RWMutex) RLocker() interface {
+	Lock()
+	Unlock()
+} {
+	return (*rlocker)(m)
+}
+
 func (m *RWMutex) RUnlock() {
 	raceRelease(unsafe.Pointer(&m.rtok))
 	if !m.relR() {
 		panic("sync: RUnlock of unlocked RWMutex")
 	}
+	notify()
 	YS(SitePrimBase + 14)
 }
 
@@ -367,6 +402,7 @@ func (o *Once) Do(f func()) {
 			defer func() {
 				raceRelease(unsafe.Pointer(&o.tok))
 				o.finish()
+				notify()
 				YS(SitePrimBase + 16)
 			}()
 			f()
@@ -401,6 +437,7 @@ func (w *WaitGroup) Add(delta int) {
 	if w.add(delta) < 0 {
 		panic("sync: negative WaitGroup counter")
 	}
+	notify()
 	YS(SitePrimBase + 18)
 }
 
